@@ -43,6 +43,17 @@ CLAIMED['C08'] = dict(
     technique='function contracts with frame (assigns) clauses enforced by CBMC DFCC on the extracted real bodies, callees replaced by their contracts; lemma harnesses over contracts',
     design='4/C08')
 
+CLAIMED['C03'] = dict(
+    text='Contract proof (integer theory, unbounded within width <= 2^20, |d| <= 2^40, strides <= 2^40) of iterator_from_2d '
+         'increment/decrement/advance/distance_to/equal with the representation invariant 0 <= x < width and locator == coordinates; '
+         'memory_based_2d_locator offset/+=/-=/cache_location/operator()/x_at/is_1d_traversable/y_distance_to; memunit_step_fn and '
+         'the step-iterator ordering operators; the bit cursor. Random-access laws, end()-begin() == w*h, at(x,y)/begin()[y*w+x]/'
+         'rbegin()[...] reaching pixel (x,y) and path-independence of locator moves are lemmas over those bodies/contracts.',
+    note=TRUST + 'Assumed: boost::iterator_facade operator plumbing; memunit_advance/distance/step of raw, planar and step iterators '
+         '(one-line bodies) follow the address model a += d; image_view accessor bodies enter through their index expressions.',
+    technique='function contracts and lemma harnesses discharged as integer-theory VCs (goto program -> z3 5.1) on extracted real bodies; CBMC DFCC for the bit cursor',
+    design='4/C03')
+
 NOT_APPLICABLE = {
     'C12': 'relates two whole template pipelines through a file/stream and external C libraries; no function contract within reach of a C verifier states what read_image returns after write_view (DESIGN 5)',
     'C13': 'equality of results of different compositions of reader classes/devices/policies over the same bytes is a relational property over I/O histories, not a pre/postcondition of an extractable function (DESIGN 5)',
